@@ -32,6 +32,7 @@ class Injector(object):
         self.n = 0
         self.fail_at = None
         self.kill_at = None
+        self.disconnect = False
         self.active = False
         event.listen(engine, 'before_cursor_execute', self.hook)
 
@@ -45,6 +46,10 @@ class Injector(object):
             os._exit(9)
         if self.fail_at is not None and self.n == self.fail_at:
             self.fail_at = None
+            if self.disconnect:
+                # the driver reports a lost connection: SQLAlchemy invalidates it, the transaction is gone
+                conn.invalidate()
+                raise sa.exc.OperationalError(statement, parameters, Exception('injected disconnect'), connection_invalidated=True)
             raise sa.exc.OperationalError(statement, parameters, Exception('injected fault'))
 
     def remove(self):
@@ -76,7 +81,20 @@ def count_statements(case):
 
 
 def run_fault_case(case):
-    env = envs.Env(case['spec'], autoflush=bool(case.get('autoflush')))
+    tmpdir = None
+    if case.get('mode') == 'disconnect':
+        # a lost connection takes an in-memory database with it: use a file
+        tmpdir = tempfile.mkdtemp(prefix='c06d_', dir=os.path.join(lean.WORK))
+    try:
+        return _run_fault_case(case, os.path.join(tmpdir, 'db.sqlite') if tmpdir else None)
+    finally:
+        if tmpdir:
+            import shutil
+            shutil.rmtree(tmpdir, ignore_errors=True)
+
+
+def _run_fault_case(case, db_path):
+    env = envs.Env(case['spec'], autoflush=bool(case.get('autoflush')), db_path=db_path)
     try:
         from sqlalchemy_continuum import versioning_manager as m
         r = program.ProgramRunner(env)
@@ -84,6 +102,7 @@ def run_fault_case(case):
         before = full_dump(r)
         inj = Injector(env.engine)
         inj.fail_at = case['fault']
+        inj.disconnect = case.get('mode') == 'disconnect'
         inj.active = True
         obs = r.run(case['tx'], first=False, stop_on_error=False, label='tx ')
         inj.active = False
@@ -91,7 +110,7 @@ def run_fault_case(case):
         r.error = None
         mode = case.get('mode', 'rollback')
         r.tracer.attach()
-        if mode == 'rollback':
+        if mode in ('rollback', 'disconnect'):
             r.s.rollback()
         elif mode == 'close':
             r.s.close()
@@ -172,7 +191,7 @@ class C06(TraceProp):
     chunk = 1
     rule = ('for each generated transaction program (on top of a committed prefix; flat, joined, many-to-many shapes, '
             'plugins, both strategies): EVERY statement boundary n gets an injected OperationalError (n = 1..N enumerated '
-            'exhaustively per program), followed by session.rollback() / session.close() / connection rollback; all '
+            'exhaustively per program), followed by session.rollback() / session.close() / connection rollback / a reported disconnect (connection invalidated, file database) + session.rollback(); all '
             'continuum tables, live tables and the manager maps must equal the pre-transaction state, the error must '
             'reach the caller, and the retried transaction must equal the uninterrupted twin; savepoint begin / release / '
             'rollback placed at every step boundary of programs without a versioned flush inside a rolled-back savepoint; '
@@ -181,7 +200,7 @@ class C06(TraceProp):
     assumptions = ['atomic rollback of the DBMS (SQLite journal) is assumed by the theorems and exercised by the kill runs',
                    'faults are injected at statement boundaries (before_cursor_execute), not inside the DB-API call',
                    'savepoint rollback after a versioned flush inside the savepoint is the open finding F-SP (pinned cases)']
-    needs_tags = ['fault', 'kill', 'savepoint', 'mode:rollback', 'mode:close', 'fault_after_version_write']
+    needs_tags = ['fault', 'kill', 'savepoint', 'mode:rollback', 'mode:close', 'mode:disconnect', 'fault_after_version_write']
 
     def counts(self, tier):
         return {'programs': 10, 'kills': 8, 'sp': 30} if tier == 'quick' else {'programs': 400, 'kills': 250, 'sp': 1500}
@@ -205,7 +224,7 @@ class C06(TraceProp):
             made += 1
             for k in range(1, n + 1):
                 yield dict(base, kind='fault', fault=k, nstatements=n, twin_final=final,
-                           mode=rng.choice(['rollback', 'rollback', 'close', 'conn']))
+                           mode=rng.choice(['rollback', 'rollback', 'close', 'conn', 'disconnect']))
         for _ in range(c['kills']):
             base = self.base_case(rng)
             n, final = count_statements(base)
@@ -296,6 +315,9 @@ class C06(TraceProp):
                     out.violations.append({'clause': 'C06.retry_differs_from_twin.' + sec,
                                            'detail': {'twin': case['twin_final'][sec], 'retried': obs['final'][sec]}})
         return out
+
+    def on_error(self, case, obs, out):
+        pass        # errors are judged per kind of case above (C06.savepoint.error:<Type> etc.)
 
     def shrinks(self, case):
         if case['kind'] == 'sp':
